@@ -1,0 +1,129 @@
+package mobius
+
+import (
+	"fmt"
+	"reflect"
+	"sort"
+	"strings"
+
+	"gopkg.in/yaml.v3"
+)
+
+// marshalYAML is yaml.Marshal for the files the server reads back at start-up, with one difference: a string that
+// yaml.v3 does not write back faithfully in the style it would pick by itself is written double-quoted.  Article texts,
+// names and logins come from clients.  A text that starts with a tab and contains a line feed is emitted as a block
+// scalar that the parser then rejects (the file can no longer be loaded and the server does not start), a leading line
+// feed is dropped when the block scalar is read back, and a map key "<<" is read back as a merge key.
+//
+// yaml.v3 offers no option for this and its Node.Encode goes through the same emitter, so the document is built here:
+// structs (by their yaml tags), maps, pointers and strings are turned into nodes by hand, everything else (numbers,
+// byte arrays, types with their own MarshalYAML) is left to the library.
+func marshalYAML(v interface{}) ([]byte, error) {
+	n, err := yamlNode(reflect.ValueOf(v))
+	if err != nil {
+		return nil, err
+	}
+
+	return yaml.Marshal(n)
+}
+
+func yamlNode(v reflect.Value) (*yaml.Node, error) {
+	if v.IsValid() && v.CanInterface() {
+		if _, ok := v.Interface().(yaml.Marshaler); ok {
+			return yamlLeaf(v)
+		}
+	}
+
+	switch v.Kind() {
+	case reflect.Ptr, reflect.Interface:
+		if v.IsNil() {
+			return yamlLeaf(v)
+		}
+
+		return yamlNode(v.Elem())
+	case reflect.String:
+		n := &yaml.Node{Kind: yaml.ScalarNode, Tag: "!!str", Value: v.String()}
+		if n.Value == "<<" || strings.ContainsAny(n.Value, "\n\r\t\u0085\u2028\u2029") {
+			n.Style = yaml.DoubleQuotedStyle
+		}
+
+		return n, nil
+	case reflect.Struct:
+		n := &yaml.Node{Kind: yaml.MappingNode, Tag: "!!map"}
+
+		for i := 0; i < v.NumField(); i++ {
+			f := v.Type().Field(i)
+			if f.PkgPath != "" {
+				continue // unexported
+			}
+
+			name, opts, _ := strings.Cut(f.Tag.Get("yaml"), ",")
+			if name == "-" {
+				continue
+			}
+			if name == "" {
+				name = strings.ToLower(f.Name)
+			}
+
+			val, err := yamlNode(v.Field(i))
+			if err != nil {
+				return nil, err
+			}
+			if strings.Contains(opts, "flow") {
+				val.Style |= yaml.FlowStyle
+			}
+
+			n.Content = append(n.Content, &yaml.Node{Kind: yaml.ScalarNode, Tag: "!!str", Value: name}, val)
+		}
+
+		return n, nil
+	case reflect.Map:
+		n := &yaml.Node{Kind: yaml.MappingNode, Tag: "!!map"}
+		if v.IsNil() || v.Len() == 0 {
+			n.Style = yaml.FlowStyle // "{}", as the library writes an empty map
+
+			return n, nil
+		}
+
+		keys := v.MapKeys()
+		sort.Slice(keys, func(i, j int) bool {
+			if keys[i].Kind() == reflect.String {
+				return keys[i].String() < keys[j].String()
+			}
+
+			return keys[i].Uint() < keys[j].Uint()
+		})
+
+		for _, k := range keys {
+			kn, err := yamlNode(k)
+			if err != nil {
+				return nil, err
+			}
+
+			val, err := yamlNode(v.MapIndex(k))
+			if err != nil {
+				return nil, err
+			}
+
+			n.Content = append(n.Content, kn, val)
+		}
+
+		return n, nil
+	}
+
+	return yamlLeaf(v)
+}
+
+// yamlLeaf lets the library encode a value that holds no client-supplied string.
+func yamlLeaf(v reflect.Value) (*yaml.Node, error) {
+	if !v.IsValid() || !v.CanInterface() {
+		return nil, fmt.Errorf("cannot encode %v", v)
+	}
+
+	n := &yaml.Node{}
+	if err := n.Encode(v.Interface()); err != nil {
+		return nil, err
+	}
+
+	return n, nil
+}
